@@ -1,5 +1,6 @@
 """Obligations, discharge portfolio, verdicts, evidence, ledger, known findings (DESIGN §4.5-4.6, §7)."""
 import hashlib
+import re
 import json
 import os
 import sys
@@ -207,6 +208,7 @@ class Session:
             kf = match_known(known, self.prop, ob)
             if kf is not None:
                 known_hits.append((ob, kf))
+                nob -= 1
                 continue
             failures.append(ob)
         if nob == 0:
@@ -215,17 +217,29 @@ class Session:
         os.makedirs(os.path.join(ROOT, 'replays'), exist_ok=True)
         lines = []
         nviol = 0
+        seen_kf = {}
         for ob, kf in known_hits:
-            lines.append('KNOWN-FINDING: property=%s %s [%s]' % (self.prop, kf['what'], ob.clause))
+            seen_kf.setdefault(kf['what'], []).append(ob.clause)
+        for what, cls in seen_kf.items():
+            lines.append('KNOWN-FINDING: property=%s %s [%d obligation instance(s), e.g. %s]' % (self.prop, what, len(cls), cls[0]))
+        by_clause = {}
         for ob in failures:
+            by_clause.setdefault(ob.clause, []).append(ob)
+        for clause, obs_ in by_clause.items():
+            # one replay and one VIOLATION line per clause (the first refuted instance if there is one)
+            obs_.sort(key=lambda o: 0 if o.status == 'refuted' else 1)
+            ob = obs_[0]
             rep = None
-            if ob.status == 'refuted' and ob.replay is not None:
+            if ob.status == 'refuted' and ob.replay is not None and nviol < 40:
                 try:
-                    rep = ob.replay(ob.model)
+                    import contextlib, io
+                    with contextlib.redirect_stdout(io.StringIO()):
+                        rep = ob.replay(ob.model)
                 except Exception as e:
                     rep = dict(reproduced=False, error=repr(e), trace=traceback.format_exc())
             path = os.path.join(ROOT, 'replays', ob.id.replace('/', '_').replace('@', '_') + '.json')
             payload = dict(property=self.prop, obligation=ob.id, status=ob.status, backend=ob.backend,
+                           instances=[o.id for o in obs_][:50], n_instances=len(obs_),
                            detail=ob.detail, note=ob.note, provenance=ob.prov, model=_jsonable(ob.model),
                            replay=_jsonable(rep),
                            hyps=[tm.show(h, 600) for h in ob.hyps[:40]],
@@ -235,10 +249,10 @@ class Session:
                 json.dump(payload, f, indent=1, default=str)
             nviol += 1
             if rep and rep.get('reproduced'):
-                lines.append('VIOLATION property=%s replay=%s obligation=%s' % (self.prop, path, ob.id))
+                lines.append('VIOLATION property=%s replay=%s obligation=%s instances=%d' % (self.prop, path, ob.id, len(obs_)))
             else:
-                lines.append('VIOLATION property=%s replay=%s obligation=%s status=%s no-failing-input-found'
-                             % (self.prop, path, ob.id, ob.status))
+                lines.append('VIOLATION property=%s replay=%s obligation=%s instances=%d status=%s no-failing-input-found'
+                             % (self.prop, path, ob.id, len(obs_), ob.status))
         for cid in ledger_missing:
             path = os.path.join(ROOT, 'replays', cid.replace('/', '_') + '.missing.json')
             with open(path, 'w') as f:
@@ -332,6 +346,8 @@ def match_known(known, prop, ob):
         if kf.get('status') != 'open' or kf.get('property') != prop:
             continue
         if ob.clause == kf.get('obligation') or ob.id == kf.get('obligation'):
+            return kf
+        if kf.get('obligation_re') and re.fullmatch(kf['obligation_re'], ob.clause):
             return kf
     return None
 
